@@ -29,3 +29,9 @@ func VerifBatchFeeder(s *Stream) func(rows []map[string]any) {
 		dp.processWindowBatch(batch)
 	}
 }
+
+// VerifApplyDistinct runs the DISTINCT step of the post-aggregation pipeline on the given
+// result rows (any column kinds, which a grouped query of the harness cannot produce).
+func VerifApplyDistinct(s *Stream, rows []map[string]any) []map[string]any {
+	return NewDataProcessor(s).applyDistinct(rows)
+}
